@@ -171,7 +171,7 @@ def check(s):
          "in dqn_loss the differentiated parameter 0 is the online policy; target_policy is a later parameter", loc,
          key="param-order", detail=str(names))
     # iteration passes state.target_policy
-    b3 = s.builder(inline=set())
+    b3 = s.builder(inline={"train"})  # an update routed through the generic `train` hook is read through to the dqn_train call it makes
     con3 = "DQN.iteration"
     loc3 = s.loc("DQN", "iteration")
     n_it = 0
@@ -186,8 +186,12 @@ def check(s):
                  and m.get("policy") == ("attr", ("param", "state"), "policy"),
                  "iteration trains with policy=state.policy and target_policy=state.target_policy", loc3, key="iteration-target",
                  detail=show(c, maxlen=200))
+        if not calls:
+            n_it += 1
+            s.ob("C07.4", con3, False, "iteration trains through dqn_train with policy=state.policy and target_policy=state.target_policy", loc3, key="iteration-target",
+                 detail="no dqn_train call on this path: " + show(pi.ret, maxlen=200), necessary_for="V' is the TARGET network's value of the online network's greedy action")
     if n_it == 0:
-        raise AnalysisError("DQN.iteration: dqn_train call vanished")
+        raise AnalysisError("DQN.iteration: no path")
     # ---------------------------------------------------------------- SAC
     b4 = s.builder(inline=set())
     nz4 = Normalizer(b4, ite_poly=True, bool_terms=[("p", "$done"), ("p", "$timeout")])
